@@ -5,7 +5,7 @@
 (* asked for and the SASL mechanism, if any.  Server events:               *)
 (*   LS(adv)        CAP * LS :adv      - what the server supports          *)
 (*   Ack(S)         CAP me ACK :S      - S may hold "-cap" (cap disabled)  *)
-(*   Nak            CAP me NAK :...                                        *)
+(*   Nak(S)         CAP me NAK :S      - in answer to any request          *)
 (*   Plus           AUTHENTICATE +     - the server asks for the SASL data *)
 (*   Outcome(n)     903 / 904 / 908                                        *)
 (*   Reconnect      the connection ends (at any point of the negotiation)  *)
@@ -67,9 +67,11 @@ Ack(S) ==
        ELSE phase' = "done" /\ Op("ack", [verb |-> "ACK", caps |-> S], <<"CAP END">>, {})
   /\ UNCHANGED <<wanted, mech, adv, gen>>
 
-Nak ==
-  /\ phase = "req" /\ Step
-  /\ phase' = "done" /\ Op("nak", [verb |-> "NAK", caps |-> {}], <<"CAP END">>, {})
+\* a refusal names the capabilities of the refused request; nothing changes on the server, so nothing is
+\* held or lost - also when it comes for a later request, after capabilities have been acknowledged
+Nak(S) ==
+  /\ phase \in {"req", "done"} /\ Step
+  /\ phase' = "done" /\ Op("nak", [verb |-> "NAK", caps |-> S], <<"CAP END">>, {})
   /\ UNCHANGED <<wanted, mech, adv, held, gen>>
 
 \* the server asks for the SASL data: only now is it sent, encoded as the mechanism prescribes
@@ -93,10 +95,11 @@ Reconnect ==
   /\ UNCHANGED <<wanted, mech>>
 
 AckSets == {S \in SUBSET {[c |-> c, on |-> b] : c \in AllCaps, b \in BOOLEAN} : S # {} /\ Cardinality(S) <= 2 /\ \A x, y \in S : x.c = y.c => x = y}
+NakSets == {S \in SUBSET AllCaps : Cardinality(S) <= 2}
 Next ==
   \/ \E S \in SUBSET AllCaps : LS(S)
   \/ \E S \in AckSets : Ack(S)
-  \/ Nak \/ Plus \/ Reconnect
+  \/ (\E S \in NakSets : Nak(S)) \/ Plus \/ Reconnect
   \/ \E n \in {"903", "904", "908"} : Outcome(n)
 Spec == Init /\ [][Next]_vars
 
